@@ -3,7 +3,7 @@
 HASHES = ["keccak_160_lsb", "keccak_248_lsb", "blake2s_160_lsb", "blake2s_248_lsb"]
 STONES = ["stone5", "stone6"]
 
-COMP_Q = [(h,) for h in ("keccak_160_lsb", "blake2s_248_lsb")]
+COMP_Q = [(h,) for h in HASHES]  # component builds are cheap (20 s): all four mask/hash variants also in quick
 COMP_T = [(h,) for h in HASHES]
 # the (hash, stone) builds for which Stone proofs are shipped in examples/proofs
 FULL_SHIPPED = [("keccak_160_lsb", "stone5"), ("keccak_160_lsb", "stone6"), ("blake2s_248_lsb", "stone6")]
@@ -170,8 +170,9 @@ PROPS["C01"] = {
     "level": "exploration",
     "technique": "runtime adversarial monitor: a cheating-prover toolkit builds complete forged proofs (constant, AIR-violating trace; honest Merkle openings; real FRI proving of the resulting DEEP function; ground PoW) that cheat in exactly one mechanism each; acceptance by the real StarkProof::verify is the refuting observation; the transcript trace monitor records how far each run got",
     "rule": "forgeries = (template statement/config of an honest proof of the build, strategy, repetition); strategies S1 bad trace/honest rest, S2 OODS length decoupling (also with a falsified output), S3 FRI domain larger than the evaluation domain, S5 blow-up exponent p-2, S6 zero queries, S8 wrong openings with honest FRI (control), S9 last-layer length, S10 PoW not ground; a forgery is non-trivial when the harness confirmed that the committed constant trace violates the AIR (constraint combination at the OODS point != committed composition); quick: 2 smallest templates per build, thorough: all templates x 3 repetitions",
-    "legs": [full("forge", "forge", t=FULL_SHIPPED, serial=True, timeout={"quick": 1800, "thorough": 14000})],
-    "required_counters": ["attempts.S1 bad-trace-honest-rest", "attempts.S2 oods-length-decoupling", "attempts.S3 fri-domain-larger-than-eval", "attempts.S5 blowup-mod-p", "rejected_by_the_targeted_check"],
+    "legs": [full("forge", "forge", t=FULL_SHIPPED, serial=True, timeout={"quick": 1800, "thorough": 14000}),
+             full("dynprofile", "dynprofile", q=[("blake2s_248_lsb", "stone6")], t=[("blake2s_248_lsb", "stone6")], args=["--profile", "/verif/profiles/dynamic_accept.json"])],
+    "required_counters": ["attempts.S1 bad-trace-honest-rest", "attempts.S2 oods-length-decoupling", "attempts.S3 fri-domain-larger-than-eval", "attempts.S5 blowup-mod-p", "rejected_by_the_targeted_check", "parameters_profiled"],
     "assumptions": TRUSTED + ["soundness against all adversaries is out of reach of any runtime monitor: only the implemented attack families are decided", "the forger learns the mask structure by black-box probing of eval_oods_polynomial"],
 }
 
